@@ -63,6 +63,9 @@ func (p *{{$TypeName}}) InitDefault() {
 
 {{if eq .Category "union"}}
 func (p *{{$TypeName}}) CountSetFields{{$TypeName}}() int {
+	if p == nil {
+		return 0 // a nil union has no member set: Write refuses it instead of dereferencing it
+	}
 	count := 0
 	{{- range .Fields}}
 	{{- if SupportIsSet .Field}}
@@ -343,7 +346,7 @@ func (p *{{$TypeName}}) Write(oprot thrift.TProtocol) (err error) {
 	if c = p.CountSetFields{{$TypeName}}(); c != 1 {
 		{{- if Features.KeepUnknownFields}}
 		// the member that is set may be one this version does not know
-		if !(c == 0 && len(p._unknownFields) > 0) {
+		if !(c == 0 && p != nil && len(p._unknownFields) > 0) {
 			goto CountSetFieldsError
 		}
 		{{- else}}
